@@ -230,5 +230,7 @@ class SelectEventLoop(EventLoop):
 
         self.logger.debug("Processing input")
         for record in ready:
+            if self._watch_files.get(record.fileobj) is not record.data:
+                continue  # the watch was removed (or replaced) by an earlier callback of this pass
             record.data()
             self._did_something = True
